@@ -482,6 +482,9 @@ impl Session {
                     }
                     num_adrreq = 0;
                     cm_defined = true;
+                    // The next block starts from the mask in force: nothing of this block's
+                    // trial mask survives when it was rejected
+                    channel_mask = region.channel_mask_get();
                 }
                 LinkCheckAns(..) => {
                     /* TODO: Payload contents are not consumed/handled
